@@ -333,7 +333,39 @@ def r5_one_parser_and_enabled_filter(ctx):
     R.floor("C14.R5.layer", m, 2, "HostFilterLayer construction sites")
 
 
-RULES = [r1_gate, r2_port_table, r3_authority_table, r4_default_port, r5_one_parser_and_enabled_filter]
+XFORM = r"str::<impl str>::(to_ascii_lowercase|to_ascii_uppercase|to_lowercase|to_uppercase|trim\w*|replace\w*|strip_\w+|split\w*|rsplit\w*)$|String::(make_ascii_lowercase|make_ascii_uppercase|truncate|retain|remove|pop|insert\w*)$|^std::fmt::format$|<\[u8\]>::(to_ascii_lowercase|to_ascii_uppercase)$"
+
+
+def r6_both_sides_spell_hosts_alike(ctx):
+    """the allow-list (writer: From<..> for WhitelistedHosts feeds the router) and the request check (reader:
+    WhitelistedHosts::recognize asks the router) must spell hosts the same way: whatever string transformation one side
+    applies to Authority.host the other applies too (today: none on either side). A one-sided fold (lower-casing the
+    entries only) makes an entry unmatchable by its own spelling and matchable by another."""
+    F, R = ctx.F, ctx.R
+    def xforms(pat):
+        out = set()
+        bodies = []
+        for b in F.find(pat):
+            bodies += F.nested(b)
+        if not bodies:
+            raise AnchorLost(pat)
+        for b in bodies:
+            R.fn(b)
+            for c in b.calls_to(XFORM):
+                out.add((c.name() or "").split("::")[-1])
+        return out
+    w = xforms(r"^<jsonrpsee_server::middleware::http::host_filter::WhitelistedHosts as std::convert::From<T>>::from$")
+    r = xforms(r"^jsonrpsee_server::middleware::http::host_filter::WhitelistedHosts::recognize$")
+    R.check(w == r, "C14.R6", "host-spelling:writer-reader-agree", "allow-list entries and request hosts reach the router in the same spelling (transformations: %s)" % (sorted(w) or "none"), "the allow-list side transforms hosts with %s but the request side with %s: an entry is no longer matched by a request that spells the host exactly like the entry (and may be matched by a different spelling)" % (sorted(w) or "nothing", sorted(r) or "nothing"), None)
+    # the route key is the entry's host, the lookup key is the request authority's host
+    tr = ctx.tracer(follow_callers=False, follow_fields=False)
+    rec = F.one(r"^jsonrpsee_server::middleware::http::host_filter::WhitelistedHosts::recognize$")
+    for c in rec.calls_to(r"Router::<.*>::recognize$"):
+        lv = tr.origins(rec, c.args[1])
+        R.check(bool(lv) and all(l.kind == "field" and l.detail["fields"][-1][1] == "host" and l.detail["idx"] == 2 for l in lv), "C14.R6", "recognize:looks-up-request-host", "the router is asked about the request authority's host", "recognize() asks the router about %s" % [flow.leaf_str(l) for l in lv], where(c))
+
+
+RULES = [r1_gate, r2_port_table, r3_authority_table, r4_default_port, r5_one_parser_and_enabled_filter, r6_both_sides_spell_hosts_alike]
 
 LEVEL_TEXT = (
     "The gate (who may reach the inner service) is decided by dominance for every path of HostFilter::call, and the three "
